@@ -70,7 +70,7 @@ def cases(tier, seed):
             # generic neural SDE against fine backprop
             out.append({"key": f"neural-{st[:5]}-{nt}", "kind": "neural", "sde_type": st, "noise_type": nt,
                         "rseed": hash((seed, 4242, st == "ito", zoo.NOISE_TYPES.index(nt))) % (2 ** 31), "cost": 10})
-    for i in range(8 if tier == "quick" else 40):
+    for i in range(8 if tier == "quick" else 200):
         out.append({"key": f"select-{i}", "kind": "select", "rseed": hash((seed, 777, i)) % (2 ** 31), "cost": 1})
     return out
 
